@@ -217,10 +217,12 @@ def entryK8 (Ψ : PsiFn K) (c : Ctx K) (k : K) (kneg : Bool) (pi pj : PulseD K) 
 def entryK (Ψ : PsiFn K) (c : Ctx K) (k : K) (kneg : Bool) (pi pj : PulseD K) (xct : Bool) : Cx K :=
   entryK8 Ψ c k kneg pi pj xct 0
 
-/-- `f8` of the implementation for the direct pass: 1 inside one plain object, 2 on its diagonal,
-0 otherwise (and always 0 for grounded non-vertical pulses and for the image pass) -/
-def f8Of (pi pj : PulseD K) : Nat :=
-  if pi.plain && pj.plain && pi.geo0 == pj.geo0 && !(pi.nvg || pj.nvg) then (if pi.idx == pj.idx then 2 else 1) else 0
+/-- `f8` of the implementation for the direct pass: 1 inside one plain object between pulses of the same segment
+length (on a tapered wire several pulses have equal halves of different length), 2 on its diagonal, 0 otherwise
+(and always 0 for grounded non-vertical pulses and for the image pass) -/
+def f8Of [BEq K] (pi pj : PulseD K) : Nat :=
+  if pi.plain && pj.plain && pi.geo0 == pj.geo0 && pi.s0.len == pj.s0.len && !(pi.nvg || pj.nvg)
+  then (if pi.idx == pj.idx then 2 else 1) else 0
 
 /-- **matrix entry** `Z[i, j]`: direct pass, plus the image pass over a ground plane unless the
 source pulse sits on the ground plane -/
@@ -232,7 +234,7 @@ def entry (Ψ : PsiFn K) (c : Ctx K) (hasGround : Bool) (pi pj : PulseD K) (xct 
 
 /-- the fill as the implementation computes it (Gauss rule selected by distance, exact kernel and
 small-radius shortcuts near the source) -/
-def entryAlgo (c : Ctx K) (hasGround : Bool) (pi pj : PulseD K) (xct : Bool) : Cx K :=
+def entryAlgo [BEq K] (c : Ctx K) (hasGround : Bool) (pi pj : PulseD K) (xct : Bool) : Cx K :=
   let one : K := ((1 : Nat) : K)
   let direct := entryK8 (psi c) c one false pi pj xct (f8Of pi pj)
   if hasGround && !(pj.s0.gnd || pj.s1.gnd) then direct + entryK8 (psi c) c (-one) true pi pj xct 0
